@@ -143,3 +143,10 @@ func utf8Rune(b []byte, k int) rune {
 //@ trusted unicode/utf16: validated exhaustively over all rune values
 //@ ensures supp: 0x10000 <= r && r <= 0x10ffff ==> r1 == 0xd800+(r-0x10000)/1024 && r2 == 0xdc00+(r-0x10000)%1024
 //@ ensures bmp: !(0x10000 <= r && r <= 0x10ffff) ==> r1 == 0xfffd && r2 == 0xfffd
+
+//@ extern slices.Grow(s []byte, n int) (result []byte)
+//@ trusted slices: documented behaviour (same elements, capacity for n more, may reallocate)
+//@ requires n >= 0
+//@ ensures sameOrFresh(result, s)
+//@ ensures len(result) == len(s) && cap(result) >= len(s)+n
+//@ ensures vForall(0, len(s), func(i int) bool { return result[i] == s[i] })
